@@ -570,7 +570,14 @@ class URL:
         """
         return QueryParamDict.from_text(self._query)
 
-    qp = query_params
+    @property
+    def qp(self):
+        "Synonym for :attr:`~URL.query_params`."
+        return self.query_params
+
+    @qp.setter
+    def qp(self, value):
+        self.query_params = value
 
     @property
     def path(self):
